@@ -166,10 +166,10 @@ def rel_close(a, b, tol=1e-9, abs_tol=0.0):
 # --------------------------------------------------------------------------
 # generic exploration of Model.rate on a symbolic game
 # --------------------------------------------------------------------------
-def explore_rate(key, shape, ranks=None, scores=None, cfg=None, call=None, opts=None, ctx=None,
-                 sigma_zero_ok=False, validate=True, extra_base=()):
-    """Explore every path of the real `rate` for one model/shape/outcome.
-    Returns [(('ok', [[(muSym, sigmaSym)]]) | ('exc', e), engine)], stats."""
+def iter_rate(key, shape, ranks=None, scores=None, cfg=None, call=None, opts=None, ctx=None,
+              sigma_zero_ok=False, validate=True, extra_base=(), draw=None):
+    """Generator over every path of the real `rate` for one model/shape/outcome:
+    yields (('ok', [[(muSym, sigmaSym)]]) | ('exc', e), engine)."""
     from sx import core
     core.install()
     Model = model_class(key)
@@ -192,29 +192,48 @@ def explore_rate(key, shape, ranks=None, scores=None, cfg=None, call=None, opts=
         out = m.rate(teams, **kw)
         return [[(p.mu, p.sigma) for p in t] for t in out]
 
-    def on_path(out, eng):
-        if not validate or ctx is None or out[0] != 'ok':
-            return
-        for k, alive in enumerate(eng.alive):
-            if not alive:
-                continue
-            conc = run_with(float_maker(eng.env[k]))
-            for ts, tc in zip(out[1], conc):
-                for (ms, ss), (mc, sc) in zip(ts, tc):
-                    for a, b in ((ms, mc), (ss, sc)):
-                        sh = a.s[k] if isinstance(a, core.Sym) else float(a)
-                        if not (sh == sh) or not rel_close(sh, b, 1e-7, 1e-9):
-                            ctx.error(f"translator validation: shadow {sh!r} != concrete {b!r} at {eng.env[k]}")
-                        else:
-                            ctx.validated += 1
-            break  # one alive shadow per path is enough
+    stats = {}
+    try:
+        for out, eng in core.iter_paths(lambda: run_with(mk), base, draw or draw_fn(shape), opts=o, stats=stats):
+            if validate and ctx is not None and out[0] == 'ok':
+                validate_shadows(ctx, eng, out[1], lambda env: run_with(float_maker(env)))
+            yield out, eng
+            if ctx is not None:
+                ctx.add_engine(eng)
+    finally:
+        if ctx is not None:
+            ctx.add_stats(stats)
 
-    res, stats = core.explore(lambda: run_with(mk), base, draw_fn(shape), opts=o, on_path=on_path)
-    if ctx is not None:
-        ctx.add_stats(stats)
-        for _, eng in res:
-            ctx.add_engine(eng)
-    return res, stats
+
+def _flatten(x):
+    if isinstance(x, (list, tuple)):
+        for y in x:
+            yield from _flatten(y)
+    else:
+        yield x
+
+
+def validate_shadows(ctx, eng, out_sym, run_concrete):
+    """translator validation: on one shadow point that satisfies the path, the proxies' shadow
+    values must equal a plain float run of the real code"""
+    from sx import core
+    for k, alive in enumerate(eng.alive):
+        if not alive:
+            continue
+        conc = run_concrete(eng.env[k])
+        for a, b in zip(_flatten(out_sym), _flatten(conc)):
+            sh = a.s[k] if isinstance(a, core.Sym) else a
+            if isinstance(b, (int, float)) and not isinstance(b, bool):
+                if not (sh == sh) or not rel_close(float(sh), float(b), 1e-7, 1e-9):
+                    ctx.error(f"translator validation: shadow {sh!r} != concrete {b!r} at {eng.env[k]}")
+                else:
+                    ctx.validated += 1
+        break  # one alive shadow per path is enough
+
+
+def explore_rate(*a, **kw):
+    res = list(iter_rate(*a, **kw))
+    return res, {}
 
 
 def vacuity_check(ctx, eng, false_ob):
